@@ -4,6 +4,7 @@ import (
 	"bytes"
 	"fmt"
 	"path/filepath"
+	"time"
 
 	"github.com/lidofinance/dc4bc/airgapped"
 	"github.com/lidofinance/dc4bc/client/types"
@@ -32,9 +33,6 @@ func c04RealBinary(c *Ctx, progress func(string)) {
 	airgapped.N = 1 << 16 // the shipped scrypt cost
 	n, t, victim := 2, 2, 1
 	for ri, restartBefore := range []string{"", OpResponses} {
-		if ri == 1 && !c.Thorough() && c.Seed%2 == 1 {
-			continue
-		}
 		seed := c.Seed*227 + uint64(ri)
 		progress(fmt.Sprintf("ceremony with the real airgapped binary (restart before %q)", restartBefore))
 		wit := map[string]interface{}{"family": "real cmd/airgapped process; database judged from outside", "n": n, "t": t, "victim": victim, "restarted_before": restartBefore, "case_seed": seed}
@@ -94,6 +92,29 @@ func c04RealBinary(c *Ctx, progress func(string)) {
 			if !q || !ce.AllIn(StIdle) {
 				c.Inconclusive("real-binary part: the ceremony does not finish: %v", ce.States())
 				return
+			}
+			if ri == 1 {
+				// two more rounds, each completed in a process life of its own (the operator switches the machine
+				// off between ceremonies): every life seals a keyring
+				w.ColdHook = nil
+				for extra := 0; extra < 2; extra++ {
+					pm.Exit()
+					if err := pm.Start(); err != nil {
+						c.Inconclusive("real-binary part: restart between rounds: %v", err)
+						return
+					}
+					ce2 := &Ceremony{W: w, N: n, T: t}
+					if ce2.Round, err = w.StartDKG(0, t, now().Add(time.Duration(extra+1)*time.Second)); err != nil {
+						c.Inconclusive("real-binary part: start of round %d: %v", extra+2, err)
+						return
+					}
+					if _, q := w.Run(world.EagerPolicy, 6000); !q || !ce2.AllIn(StIdle) {
+						c.Inconclusive("real-binary part: round %d does not finish: %v", extra+2, ce2.States())
+						return
+					}
+					c.Add("rounds_completed_in_a_process_life_of_their_own", 1)
+				}
+				wit["rounds_on_this_database"] = 3
 			}
 			pm.Exit()
 			judgeSecretsIn(c, w.Dir, pm.DBPath, "the cmd/airgapped binary's database", sched.Derive(seed, 405), wit)
